@@ -276,7 +276,8 @@ def load_from_source(
                 source_was_open = False
                 source = open_source = fp
         else:
-            first_char = source[0]
+            # (an empty string is RDF text for the empty graph, not a path)
+            first_char = source[0] if len(source) > 0 else '\n'
             if is_windows and (first_char == '\\' or (len(source) > 3 and source[1:3] == ":\\")):
                 filename = source
                 source_as_filename = filename
@@ -324,7 +325,8 @@ def load_from_source(
             raise ValueError("file: and http: strings should be given as str, not bytes.")
         first_char_b: bytes = source[0:1]
         if (
-            first_char_b == b'#'
+            len(source) == 0  # the empty graph
+            or first_char_b == b'#'
             or first_char_b == b'@'
             or first_char_b == b'<'
             or first_char_b == b'\n'
@@ -399,7 +401,7 @@ def load_from_source(
         if not _maybe_id:
             _maybe_id = Path(filename).as_uri()
         source = open_source = cast(BufferedIOBase, open(filename, mode='rb'))
-    if not open_source and source_as_bytes:
+    if not open_source and source_as_bytes is not None:
         source = open_source = BytesIO(source_as_bytes)  # type: ignore
 
     if open_source:
